@@ -16,6 +16,7 @@ func init() {
 		NilGuard(c, "R-NILGUARD", func(t *types.Named) bool { return isNamed(t, "lazy", "Eval") })
 		Memo(c, "R-MEMO")
 		Tramp(c, "R-TRAMP")
+		NoSharedCell(c, "R-NOSHAREDCELL", c.Pkg("lazy"), 15)
 		Tail(c, "R-TAIL", []*packages.Package{c.Pkg("seq"), c.Pkg("list"), c.Pkg("iterator"), c.Pkg("option"), c.Pkg("try"), c.Pkg("either")})
 	})
 }
